@@ -766,7 +766,14 @@ def c07_check_program(steps: list, sel: str, seed: int) -> dict:
                     # onnx.reference, run on the same built model, does not side with the propagated value.
                     alt = second_opinion(pos)
                     if alt is not None and values_equal(v._get_value(), alt) is None:
+                        # the two third-party evaluators disagree on the built model and the propagated value
+                        # sides with onnx.reference: a separate failure family (listed per operator in
+                        # findings.d when it is a known third-party defect), never a silent pass
+                        kind = "str" if np.asarray(o).dtype.kind in "UO" else np.asarray(o).dtype.kind
                         stats["evaluators_disagree"] = stats.get("evaluators_disagree", 0) + 1
+                        fails.append((f"evaluators-disagree:{opn}:{kind}",
+                                      f"[{sel}] var {i} ({opn}): propagated {str(v._get_value())[:60]} = onnx.reference on the built model, "
+                                      f"but onnxruntime computes {str(o)[:60]}"))
                         why = None
                 if why:
                     which = v._which_output
